@@ -162,6 +162,11 @@ static std::string default_cell(DataType dt) {
     }
 }
 
+// read buffers start out with a value nothing stores, so that elements a read leaves untouched do not pass for stored defaults
+static int32_t sentinel_of(int32_t *) { return 0x5a5a5a5a; } static uint32_t sentinel_of(uint32_t *) { return 0x5a5a5a5au; }
+static int64_t sentinel_of(int64_t *) { return 0x5a5a5a5a5a5a5a5aLL; } static uint64_t sentinel_of(uint64_t *) { return 0x5a5a5a5a5a5a5a5aULL; }
+static double sentinel_of(double *) { return -7.25e77; } static std::string sentinel_of(std::string *) { return std::string("\x01never-assigned"); }
+
 int create_frame_op(World &w, const Op &op) {
     const int *a = op.a;
     Block b = w.blk(a[0]); if (!b) return 2;
@@ -335,7 +340,7 @@ int World::exec_frame(const Op &op) {
             arg_class += ",dtype=" + dtype_name(dt) + (resize ? ",resize" : ",fixed");
             if (dt == DataType::String) for (size_t i = 0; i < n && off + i < nrows; i++) if (m.cells[off + i][c] == "s:0''") { arg_class += ",unwritten-string"; break; }
             std::vector<std::string> got;
-#define RCOL(T) { std::vector<T> v(resize ? (size_t) r.below(3) : n); if (by_index) df.readColumn((unsigned) c, v, resize, off); else df.readColumn(m.cols[c].name, v, resize, off); for (auto &x : v) got.push_back(variant_str(Variant(x))); break; }
+#define RCOL(T) { std::vector<T> v(resize ? (size_t) r.below(3) : n, sentinel_of((T *) nullptr)); if (by_index) df.readColumn((unsigned) c, v, resize, off); else df.readColumn(m.cols[c].name, v, resize, off); for (auto &x : v) got.push_back(variant_str(Variant(x))); break; }
             switch (dt) {
                 case DataType::Int32: RCOL(int32_t) case DataType::UInt32: RCOL(uint32_t) case DataType::Int64: RCOL(int64_t)
                 case DataType::UInt64: RCOL(uint64_t) case DataType::Double: RCOL(double) case DataType::String: RCOL(std::string)
